@@ -67,6 +67,43 @@ def _work(arg):
         return unit.name, shard, {'undecided': 'engine crash: ' + repr(e)[:300], 'trace': traceback.format_exc()[-1500:], 'agg': {}, 'paths': 0}
 
 
+def _child(job, conn):
+    try:
+        conn.send(_work(job))
+    finally:
+        conn.close()
+
+
+def _schedule(jobs, procs, wall_s):
+    """one forked process per job, at most `procs` alive; a worker that dies (solver crash, OOM kill) or exceeds the wall limit makes ITS unit
+    undecided - it can neither hang the check nor be mistaken for a verdict (a multiprocessing.Pool waits for ever for a task whose worker died)"""
+    from multiprocessing.connection import wait
+    ctx = multiprocessing.get_context('fork')
+    pending = list(jobs); live = {}; out = []
+
+    def lost(job, why):
+        return job[0], job[1], {'undecided': why, 'agg': {}, 'paths': 0, 'symexec_s': 0.0}
+    while pending or live:
+        while pending and len(live) < procs:
+            job = pending.pop(0); r, w = ctx.Pipe(duplex=False)
+            pr = ctx.Process(target=_child, args=(job, w), daemon=True); pr.start(); w.close()
+            live[r] = (pr, job, time.time())
+        ready = wait(list(live), timeout=1.0)
+        for r in list(live):
+            pr, job, t0 = live[r]
+            if r in ready:
+                try:
+                    out.append(r.recv())
+                except (EOFError, OSError):
+                    pr.join(5)
+                    out.append(lost(job, f'verifier worker died (exit code {pr.exitcode}) - no verdict for this unit'))
+                r.close(); pr.join(5); del live[r]
+            elif time.time() - t0 > wall_s:
+                pr.kill(); pr.join(5); r.close(); del live[r]
+                out.append(lost(job, f'verifier worker exceeded the wall-clock limit of {wall_s} s - no verdict for this unit'))
+    return out
+
+
 def run_units(units, timeout_ms=None, procs=None):
     """runs all units (sharded) in a fork pool; returns {unit name: result}"""
     jobs = []
@@ -75,9 +112,7 @@ def run_units(units, timeout_ms=None, procs=None):
             jobs.append((u.name, (k, u.shards), timeout_ms))
         _REG[u.name] = u
     procs = procs or min(16, max(1, len(jobs)))
-    ctx = multiprocessing.get_context('fork')
-    with ctx.Pool(procs) as pool:
-        raw = pool.map(_work, jobs, chunksize=1)
+    raw = _schedule(jobs, procs, int(os.environ.get('VERIF_UNIT_WALL_S', '0')) or (900 if (timeout_ms or 0) < 30000 else 3600))
     by = {}
     for name, shard, res in raw:
         by.setdefault(name, []).append(res)
